@@ -652,14 +652,17 @@ func TestVerifC08Rounds(t *testing.T) {
 				valz, _ = c08WideBatch(r, c08WidePool(r, 14), nil)
 				start = c08Copy(valz)
 				vs, _ = c08New(valz)
-				if vs == nil { // over the limit (by 1 or 2): NewValidatorSet panics; shrink the largest
+				for try := 0; vs == nil && try < 64; try++ { // over the limit: NewValidatorSet panics; shrink the largest
 					big := valz[0]
 					for _, v := range valz {
 						if v.VotingPower > big.VotingPower {
 							big = v
 						}
 					}
-					big.VotingPower -= 2
+					big.VotingPower -= 2 << uint(try/4)
+					if big.VotingPower < 1 {
+						big.VotingPower = 1
+					}
 					start = c08Copy(valz)
 					vs, _ = c08New(valz)
 				}
@@ -686,6 +689,9 @@ func TestVerifC08Rounds(t *testing.T) {
 			start = c08Copy(vs.Validators)
 			vs = c08Build(start)
 			rounds = 10 + r.Intn(vg.Scale(70, 400))
+		}
+		if vs == nil {
+			continue
 		}
 		var props []string
 		if fresh {
